@@ -16,8 +16,8 @@
 (*  function (name, input collection, single-item arguments) in order.     *)
 (*                                                                         *)
 (* Mutant selects a deliberately wrong machine:                            *)
-(*   firstErrorOnly, duplicateOverwrites, shallowTypeCheck (Evaluate       *)
-(*   options), registerBadSignature, overrideExisting (Compile options);   *)
+(*   firstErrorOnly, duplicateOverwrites, shallowTypeCheck,                *)
+(*   lastElementOnly (Evaluate options), registerBadSignature, overrideExisting (Compile options);   *)
 (*   evalDespiteError lives in the machine of C17_MC.                      *)
 (***************************************************************************)
 EXTENDS FPValues
@@ -59,6 +59,8 @@ Supported(v) ==
   CASE v.vk = "leaf"  -> TRUE
     [] v.vk = "input" -> TRUE
     [] v.vk = "coll"  -> IF Mutant = "shallowTypeCheck" THEN TRUE
+                         ELSE IF Mutant = "lastElementOnly"
+                              THEN Len(v.elems) = 0 \/ Supported(v.elems[Len(v.elems)])
                          ELSE \A j \in 1..Len(v.elems) : Supported(v.elems[j])
     [] OTHER          -> FALSE
 
